@@ -164,7 +164,11 @@ FUNCS = {
                {'name': 'hop_count', 'params': {'type_code': 'Class[HopCountBlock]'},
                 'returns': 'List[Pkt[CanonicalBlock, HopCountBlock]]'},
                {'name': 'bundle_age', 'params': {'type_code': 'Class[BundleAgeBlock]'},
-                'returns': 'List[Pkt[CanonicalBlock, BundleAgeBlock]]'}],
+                'returns': 'List[Pkt[CanonicalBlock, BundleAgeBlock]]'},
+               {'name': 'integrity', 'params': {'type_code': 'Class[BlockIntegrityBlock]'},
+                'returns': 'List[Pkt[CanonicalBlock, BlockIntegrityBlock]]'},
+               {'name': 'confidentiality', 'params': {'type_code': 'Class[BlockConfidentialityBlock]'},
+                'returns': 'List[Pkt[CanonicalBlock, BlockConfidentialityBlock]]'}],
         modifies=[],
         ensures=[('members_are_blocks_of_the_bundle', 'forall(i, 0, length(result), contains(blocks(self), result[i]))'),
                  ('members_have_the_class', 'forall(i, 0, length(result), result[i]._pcls == cls_tag(type_code) and '
